@@ -15,8 +15,8 @@ import ast
 from typing import List, Optional, Set
 
 from .report import Ctx
-from .srcmodel import AnalysisError, call_leaf, calls_in, const_str, contains, src, walk_local
-from .util import enclosing_trys, guard_chain, root_name, strip_not
+from .srcmodel import AnalysisError, call_leaf, calls_in, const_str, contains, dotted, get_kwarg, src, walk_local
+from .util import enclosing_trys, enclosing_withs, guard_chain, root_name, strip_not
 
 NX = {"e"}
 
@@ -227,6 +227,44 @@ def run(ctx: Ctx) -> int:
         ok = len(gch) == 1 and isinstance(gch[0][0], ast.Name) and gch[0][0].id == "serialize" and gch[0][1] is False
         # reached on every non-serialising, non-instantiating, non-NestedArg path
     ctx.oblige("C14.d", ok, po[0] if po else act_fn, "on the parsing path init_args are always parsed by the class's own parser" if ok else "init_args can bypass parser.parse_object on the parsing path", fn=act_fn)
+
+    # ---------------- C14.e: init_args kept across a class_path change are valid for the new class -----------
+    # discard_init_args_on_class_path_change keeps an old init_arg only if the NEW class's parser accepts it; the
+    # test is `_check_value_key` raising or not.  _check_value_key reads the lenient_check context variable and
+    # accepts None unchecked when it is on, so a caller that uses it as a decision procedure has to pin it off.
+    dia = ctx.func("_typehints:discard_init_args_on_class_path_change")
+    cvk = ctx.func("_core:ArgumentParser._check_value_key")
+    reads_lenient = any(call_leaf(c) == "get" and isinstance(c.func, ast.Attribute) and dotted(c.func.value) == "lenient_check" for c in calls_in(cvk))
+    checks = [c for c in calls_in(dia) if call_leaf(c) == "_check_value_key"]
+    ctx.need(checks, "discard_init_args_on_class_path_change: call of _check_value_key")
+    for c in checks:
+        swallowing = [t for t, part in enclosing_trys(c) if part == "body" and any(not any(isinstance(x, ast.Raise) for x in ast.walk(h)) for h in t.handlers)]
+        pinned = False
+        for w, item in enclosing_withs(c, stop=dia):
+            ce = item.context_expr
+            if isinstance(ce, ast.Call) and call_leaf(ce) == "parser_context":
+                kw = get_kwarg(ce, "lenient_check")
+                if isinstance(kw, ast.Constant) and kw.value is False:
+                    pinned = True
+        ok = bool(swallowing) and (pinned or not reads_lenient)
+        ctx.oblige(
+            "C14.e",
+            ok,
+            c,
+            "the validity test for a kept init_arg runs with lenient_check pinned to False (a None value is checked against the new class's parameter type)" if ok else "the validity test for a kept init_arg runs under the caller's lenient_check: inside lenient contexts _check_value_key accepts None unchecked, so an old `p=None` survives a change to a class whose `p` does not accept None",
+            fn=dia,
+        )
+    pops = [c for c in calls_in(dia) if call_leaf(c) == "pop" and "init_args" in ast.unparse(c.func)]
+    ok = bool(pops)
+    if ok:
+        gch = guard_chain(pops[0], stop=dia)
+        inner = gch[0] if gch else None
+        ok = inner is not None and isinstance(inner[0], ast.UnaryOp) and isinstance(inner[0].op, ast.Not) and inner[1] and isinstance(inner[0].operand, ast.Name)
+        if ok:
+            flag = inner[0].operand.id
+            resets = [s for s in walk_local(dia) if isinstance(s, ast.Assign) and any(isinstance(t, ast.Name) and t.id == flag for t in s.targets) and isinstance(s.value, ast.Constant) and s.value.value is None]
+            ok = any(any(part == "handler" for _, part in enclosing_trys(s)) for s in resets) and any(isinstance(s, ast.Assign) and any(isinstance(t, ast.Name) and t.id == flag for t in s.targets) and isinstance(s.value, ast.Call) and call_leaf(s.value) == "_find_action" for s in walk_local(dia))
+    ctx.oblige("C14.e", ok, pops[0] if pops else dia, "an old init_arg is discarded when the new class has no such parameter or its parser rejects the value" if ok else "the discard condition of discard_init_args_on_class_path_change changed (no longer: unknown to the new class, or rejected by it)", fn=dia, construct="discard condition")
 
     return ctx.finish(
         explanation=(
